@@ -5,10 +5,12 @@ import json, os, re, sys
 HERE = os.path.dirname(os.path.dirname(os.path.abspath(__file__)))
 tier = sys.argv[2] if len(sys.argv) > 2 else "quick"
 for line in open(sys.argv[1]):
-    m = re.match(r"seeded/(C\d+-\d+)/ (C\d+) exit=(\d+)(.*)", line)
+    m = re.match(r"seeded/(C\d+-\d+)/ (?:(quick|thorough) )?(C\d+) exit=(\d+)(.*)", line)
     if not m:
         continue
-    name, prop, rc, rest = m.group(1), m.group(2), int(m.group(3)), m.group(4)
+    name, prop, rc, rest = m.group(1), m.group(3), int(m.group(4)), m.group(5)
+    if m.group(2):
+        tier = m.group(2)
     p = os.path.join(HERE, "seeded", name, "meta.json")
     meta = json.load(open(p))
     sig = re.search(r"signature=(\S+)", rest)
